@@ -92,7 +92,10 @@ def play(scripts, stop_at, horizon, bind_mode, min_delay, max_increases, interva
                     if sc[0] == 'bind_error':
                         conn.send(vsess.bind_resp_for(p, status=sc[1]))
                     elif sc[0] == 'wrong_resp':
-                        conn.send(smppref.header(0x80000015, 0, seq))
+                        # a response, but not the one to this bind: enquire_link_resp, unbind_resp, the bind response of another mode, generic_nack
+                        other = {1: 0x80000002, 2: 0x80000009, 9: 0x80000001}[cmd]
+                        wrong = [0x80000015, 0x80000006, other, 0x80000000, 0x80000004][(seq + len(smsc.attempts)) % 5]
+                        conn.send(smppref.header(wrong, 0 if wrong != 0x80000000 else 3, seq, b'SMSC\x00' if wrong == other else b''))
                     elif sc[0] == 'eof_at_bind':
                         conn.eof()
                     elif sc[0] == 'reset_at_bind':
@@ -216,6 +219,11 @@ def oracle(obs, scripts, bind_mode, min_delay, max_increases, interval, sock_to)
             return f'delay before attempt {i + 2} is {w1 - w0:.3f}s, expected {want:.3f}s ({k} consecutive failures since the last bind; min {min_delay}ms, {max_increases} increases)'
         if i + 1 < len(obs['attempts']) and abs(obs['attempts'][i + 1] - w1) > 1e-6:
             return f'attempt {i + 2} does not start when the back-off delay ends'
+    # a bind that the SMSC did not answer with the matching bind response and an accepting status never opens a session
+    for i, cyc in enumerate(obs['cycles']):
+        sc = scripts[i] if i < len(scripts) else ('ok', 'healthy')
+        if sc[0] != 'ok' and cyc.get('state_after_bind') is not None:
+            return f'attempt {i + 1}: the session became bound (state {cyc["state_after_bind"]}) although the SMSC reacted to the bind with {sc}'
     if obs['stop_at'] is None:
         # the run must have gone through the whole fault script to the healthy peer
         if len(obs['attempts']) < len(scripts):
